@@ -134,6 +134,10 @@ type genState struct {
 type sendReq struct {
 	blocks []block
 	done   chan error // buffered cap 1 — see newSendReq
+	// taken is set by the line engine the moment it takes the request off sendReqCh. The engine
+	// answers EVERY request it takes (the unconditional `req.done <- err`), so once taken is set a
+	// verdict is on its way; Write uses it at teardown to wait for that verdict instead of guessing.
+	taken atomic.Bool
 }
 
 // newSendReq builds a sendReq for blocks with the load-bearing cap-1 done channel (G-C). Centralizing
@@ -490,6 +494,7 @@ func (t *transport) lineEngine(engineCtx context.Context, g *genWG, conn net.Con
 		// (2) Pending outbound send? Non-blocking. Write (T4) hands off a *sendReq on sendReqCh.
 		select {
 		case req := <-sendReqCh:
+			req.taken.Store(true)
 			err := t.runSend(engineCtx, line, req, sink)
 			// req.done is BUFFERED cap 1 (G-C) — this never blocks even if the Write goroutine has
 			// already abandoned the wait via genDone.
@@ -765,6 +770,23 @@ func (t *transport) Write(_ context.Context, conn net.Conn, bufs net.Buffers) er
 		case err := <-req.done:
 			return err
 		default:
+		}
+
+		// The engine already holds this request: it will answer it (it answers every request it
+		// takes), and promptly — Stop cancelled its ctx and closed its socket before this broadcast —
+		// so wait for the verdict rather than report ErrConnClosed for a block whose ACK the engine
+		// may have just read. Bounded by T2 in case an inline inbound handler wedges the engine
+		// during a contention yield (the bound keeps teardown from hanging on it). A request the
+		// engine has NOT taken is never transmitted (its ctx is already cancelled), so it is refused.
+		if req.taken.Load() {
+			timer := time.NewTimer(t.rt.Timers().T2)
+			defer timer.Stop()
+
+			select {
+			case err := <-req.done:
+				return err
+			case <-timer.C:
+			}
 		}
 
 		return hsms.ErrConnClosed
